@@ -38,10 +38,14 @@ func (m *MinimumMeasurement) Reset() {
 
 // Update will update the value given an operation function
 func (m *MinimumMeasurement) Update(operation func(value float64) float64) {
-	m.mu.RLock()
-	current := m.value
-	m.mu.RUnlock()
-	m.Add(operation(current))
+	// read, operation and conditional store are one step (as in the other measurements): a Reset or Add completing
+	// in between would otherwise be undone by the stale value written back
+	m.mu.Lock()
+	defer m.mu.Unlock()
+	sample := operation(m.value)
+	if m.value == 0.0 || sample < m.value {
+		m.value = sample
+	}
 }
 
 func (m *MinimumMeasurement) String() string {
